@@ -77,7 +77,7 @@ join_same_entries(econf_file *ef)
 	  {
 	    /* removing leading spaces */
 	    while(isspace(*post)) post++;
-	    ret = asprintf(&(ef->file_entry[i].value), "%s\n%s", pre,
+	    ret = asprintf(&(ef->file_entry[i].value), "%s\n%s", pre ? pre : "",
 			   post);
 	    if(ret<0)
 	      return ECONF_NOMEM;
@@ -92,7 +92,7 @@ join_same_entries(econf_file *ef)
 	  post = ef->file_entry[j].comment_before_key;
           pre = ef->file_entry[i].comment_before_key;
 	  int ret = asprintf(&(ef->file_entry[i].comment_before_key),
-			     "%s\n%s", pre, post);
+			     "%s\n%s", pre ? pre : "", post);
 	  if(ret<0)
 	    return ECONF_NOMEM;
 	  free(pre);
